@@ -171,6 +171,7 @@ type world struct {
 	gov   string
 
 	oracles     []sdk.AccAddress
+	oracleKeys  []cryptotypes.PrivKey // round 4: registry messages can be delivered as transactions signed by the oracle
 	bridgers    []sdk.AccAddress
 	bridgerKeys []cryptotypes.PrivKey
 	exts        []string
@@ -214,6 +215,7 @@ type world struct {
 	// round 4
 	user      sdk.AccAddress  // sends transfers into the outgoing pool
 	batchSeq  int64
+	asTx      bool // the next bond / add-delegate / unbond op is delivered as a signed transaction in a block of its own
 	lostCalls map[[2]uint64]bool // result claims whose outgoing bridge calls a genesis export / import dropped
 	consumed  map[[2]uint64]bool // result claims whose outgoing bridge call was consumed by their execution
 }
@@ -259,7 +261,9 @@ func newWorld(t *testing.T, s *hx.Suite, out *hx.Out, rng *rand.Rand, chain stri
 		poor = nO - 1
 	}
 	for i := 0; i < nO; i++ {
-		a := helpers.GenAccAddress()
+		opk := helpers.NewPriKey()
+		a := sdk.AccAddress(opk.PubKey().Address())
+		w.oracleKeys = append(w.oracleKeys, opk)
 		if i == poor {
 			s.MintToken(a, sdk.NewCoin(fxtypes.DefaultDenom, w.threshold.MulRaw(2)))
 			w.oracles = append(w.oracles, a)
@@ -1048,8 +1052,18 @@ func (w *world) opBond(o, b, e int, amt sdkmath.Int) string {
 	}
 	before := w.snapshot()
 	val := w.s.ValAddr[w.rng.Intn(len(w.s.ValAddr))]
-	res, _ := w.route(&crosschaintypes.MsgBondedOracle{ChainName: w.chain, OracleAddress: oa.String(), BridgerAddress: ba.String(),
-		ExternalAddress: w.exts[e-extBase], ValidatorAddress: val.String(), DelegateAmount: crosschaintypes.NewDelegateAmount(amt)})
+	bm := &crosschaintypes.MsgBondedOracle{ChainName: w.chain, OracleAddress: oa.String(), BridgerAddress: ba.String(),
+		ExternalAddress: w.exts[e-extBase], ValidatorAddress: val.String(), DelegateAmount: crosschaintypes.NewDelegateAmount(amt)}
+	if w.asTx {
+		w.asTx = false
+		return w.opTxMsg("bond", o, bm, before, func(dep bool) string { return fmt.Sprintf("bond %d %d %d %s %d", o, b, e, amt.String(), b2i(dep)) },
+			func(res string) {
+				if res == "ok" && w.unbonded[o] {
+					w.rebonded[o] = true
+				}
+			})
+	}
+	res, _ := w.route(bm)
 	dep := res != "err:dep"
 	if res == "ok" && w.unbonded[o] {
 		w.rebonded[o] = true
@@ -1065,7 +1079,12 @@ func (w *world) opAddDelegate(o int, amt sdkmath.Int) string {
 		return "skip"
 	}
 	before := w.snapshot()
-	res, _ := w.route(&crosschaintypes.MsgAddDelegate{ChainName: w.chain, OracleAddress: oa.String(), Amount: crosschaintypes.NewDelegateAmount(amt)})
+	am := &crosschaintypes.MsgAddDelegate{ChainName: w.chain, OracleAddress: oa.String(), Amount: crosschaintypes.NewDelegateAmount(amt)}
+	if w.asTx {
+		w.asTx = false
+		return w.opTxMsg("adddel", o, am, before, func(dep bool) string { return fmt.Sprintf("adddel %d %s %d", o, amt.String(), b2i(dep)) }, nil)
+	}
+	res, _ := w.route(am)
 	dep := res != "err:dep"
 	w.out.Emit(fmt.Sprintf("adddel %d %s %d", o, amt.String(), b2i(dep)), res+" "+w.observe())
 	w.monitors(before)
@@ -1118,7 +1137,17 @@ func (w *world) opUnbond(o int) string {
 		bal = w.s.App.BankKeeper.GetBalance(w.s.Ctx, da, fxtypes.DefaultDenom).Amount
 	}
 	before := w.snapshot()
-	res, _ := w.route(&crosschaintypes.MsgUnbondedOracle{ChainName: w.chain, OracleAddress: oa.String()})
+	um := &crosschaintypes.MsgUnbondedOracle{ChainName: w.chain, OracleAddress: oa.String()}
+	if w.asTx {
+		w.asTx = false
+		return w.opTxMsg("unbond", o, um, before, func(dep bool) string { return fmt.Sprintf("unbond %d %d %s %d", o, b2i(ubd), bal.String(), b2i(dep)) },
+			func(res string) {
+				if res == "ok" {
+					w.unbonded[o] = true
+				}
+			})
+	}
+	res, _ := w.route(um)
 	dep := res != "err:dep"
 	if res == "ok" {
 		w.unbonded[o] = true
@@ -1767,8 +1796,10 @@ func (w *world) randomOp() {
 	case r < 62:
 		w.randomClaim()
 	case r < 68: // bond
+		w.asTx = w.rng.Intn(8) == 0
 		o := oracleBase + w.rng.Intn(len(w.oracles))
 		res := w.opBond(o, w.freeBridger(), w.freeExt(), w.randomStake())
+		w.asTx = false
 		w.out.Count("bond:" + res)
 	case r < 74: // add delegate (brings slashed oracles back online)
 		o := oracleBase + w.rng.Intn(len(w.oracles))
@@ -1794,7 +1825,9 @@ func (w *world) randomOp() {
 				}
 			}
 		}
+		w.asTx = w.rng.Intn(8) == 0
 		res := w.opAddDelegate(o, amt)
+		w.asTx = false
 		w.out.Count("adddel:" + res)
 	case r < 78:
 		o := oracleBase + w.rng.Intn(len(w.oracles))
@@ -1849,7 +1882,9 @@ func (w *world) randomOp() {
 				o = x.id
 			}
 		}
+		w.asTx = w.rng.Intn(8) == 0
 		res := w.opUnbond(o)
+		w.asTx = false
 		w.out.Count("unbond:" + res)
 	default:
 		lo := w.k.GetLastObservedEventNonce(w.s.Ctx)
